@@ -53,8 +53,16 @@ func verifCheckSameResult(a *Url, aerr error, b *Url, berr error, what string) {
 func VerifC06Laws() {
 	ri := vnd.Pick(len(refCtx))
 	ref := refCtx[ri].pre + vnd.Str(vnd.Len(vnd.Param("C06.KRef", 2, 3))) + refCtx[ri].suf
-	checkLaws(bases[vnd.Pick(len(bases))], ref)
+	if bi := vnd.Pick(len(bases) + len(edgeBases)); bi < len(bases) {
+		checkLaws(bases[bi], ref)
+	} else {
+		checkLaws(edgeBases[bi-len(bases)], ref)
+	}
 }
+
+// edgeBases: base strings with Unicode white space that is NOT ASCII white space at their ends (the
+// standard strips only C0 control or space): kept and percent-encoded.
+var edgeBases = []string{"http://h/p?q\u3000", "http://h/p\u0085", "a:b\u2028"}
 
 // VerifC06LawsSymBase: symbolic base (context + window) x the concrete references.
 func VerifC06LawsSymBase() {
